@@ -58,6 +58,18 @@ theorem aListParts_eq (ns : List Node) (cwd : String) (r : Bool) :
     · simp [aListParts, hn, ih]
     · simp [aListParts, hn, ih]
 
+theorem aListPartsCd_eq (ns : List Node) (cwd0 cwd : String) (r : Bool) :
+    aListPartsCd w rec h ns cwd0 cwd r
+      = (match ns.filter (fun n => !isOperator n) with
+         | [] => []
+         | p :: ps => aNode w rec h p cwd0 r :: ps.map (fun n => aNode w rec h n cwd r)) := by
+  induction ns with
+  | nil => simp [aListPartsCd]
+  | cons n ns ih =>
+    by_cases hn : isOperator n = true
+    · simp [aListPartsCd, hn, ih]
+    · simp [aListPartsCd, hn, aListParts_eq]
+
 theorem aOptNode_acts (e : Option Node) (cwd : String) (r : Bool) :
     acts (aOptNode w rec h e cwd r) = (e.map (fun n => (aNode w rec h n cwd r).action)).toList := by
   cases e <;> simp [aOptNode]
